@@ -52,12 +52,53 @@ def load_findings():
     return out
 
 
+def open_findings(prop):
+    return [f for f in load_findings() if f.get("property") == prop and f.get("status") == "open"]
+
+
+def claimed_level(mod, prop):
+    """Level registered in MANIFEST.json (tools/gen_manifest.py) and written to the evidence file when the run confirms it.
+    'proof' is claimed only for a property whose every obligation is expected to be discharged: a property with an open
+    known finding has a refuted obligation on the unchanged tree, so it is not proved and is registered as 'other'."""
+    level = getattr(mod, "LEVEL", "proof")
+    if level == "proof" and open_findings(prop):
+        return "other"
+    return level
+
+
 def finding_matches(f, prop, rec):
     if f.get("property") != prop or f.get("status") != "open":
         return False
     if f.get("obligation") != rec["id"]:
         return False
     return True
+
+
+def _explanation(mod, ev_level, n_ob, discharged, known, violations, undec_obs, undecided, missing, errors):
+    parts = []
+    if getattr(mod, "EXPLANATION", ""):
+        parts.append(mod.EXPLANATION)
+    if ev_level == "proof":
+        parts.append(f"all {n_ob} obligations generated from the current source were discharged")
+        return " ".join(parts)
+    parts.append(f"contract-based deductive check: {discharged} of {n_ob} obligations generated from the current source were "
+                 f"discharged for all inputs (no bound).")
+    if known:
+        parts.append(f"{len(known)} obligation(s) are REFUTED and listed as open known findings in known_findings.jsonl - the "
+                     f"property does not hold there, so the property as a whole is not proved on this tree: "
+                     + "; ".join(o["id"] for o, _ in known) + ".")
+    if violations:
+        parts.append(f"{len(violations)} obligation(s) are refuted and NOT listed as known findings (VIOLATION): "
+                     + "; ".join(o["id"] for o in violations) + ".")
+    if undec_obs or undecided or missing:
+        parts.append(f"undecided: {len(undec_obs)} obligation(s), {len(undecided)} task(s); baseline obligations not regenerated: "
+                     f"{len(missing)}.")
+    if errors:
+        parts.append(f"{len(errors)} checker error(s).")
+    if getattr(mod, "LEVEL", "proof") != "proof":
+        parts.append("The claimed level is 'other' because part of the property is outside function contracts (see not_decided "
+                     "and the level note in MANIFEST.json).")
+    return " ".join(parts)
 
 
 def sanitize(s):
@@ -78,7 +119,13 @@ def main(argv=None):
     tier = "thorough" if a.tier == "thorough" else "quick"
     seed = int(os.environ.get("VERIF_SEED", "0") or 0)
     t0 = time.time()
-    ev_path = os.path.join(VERIF, "evidence", f"{prop}.json")
+    # evidence and replay files of /verif describe /repo itself: a run against a scratch copy (VERIF_REPO, used by
+    # tools/mut.sh and tools/confirm_seed.sh) writes them under VERIF_OUT (default: a directory under the system tmp dir)
+    out_root = VERIF
+    if os.path.realpath(REPO_ROOT) != "/repo" or os.environ.get("VERIF_OUT"):
+        import tempfile
+        out_root = os.environ.get("VERIF_OUT") or os.path.join(tempfile.gettempdir(), "verif-scratch-out")
+    ev_path = os.path.join(out_root, "evidence", f"{prop}.json")
     os.makedirs(os.path.dirname(ev_path), exist_ok=True)
 
     try:
@@ -179,7 +226,7 @@ def main(argv=None):
         missing = [b for b in base if b not in obligations]
 
     # ------------------------------------------------------------------ findings / replay
-    rdir0 = os.path.join(VERIF, "replays", prop)
+    rdir0 = os.path.join(out_root, "replays", prop)
     if os.path.isdir(rdir0) and not a.only:
         for fn in os.listdir(rdir0):
             if fn.endswith(".json"):
@@ -195,7 +242,7 @@ def main(argv=None):
 
     viol_lines = []
     for o in violations:
-        rdir = os.path.join(VERIF, "replays", prop)
+        rdir = os.path.join(out_root, "replays", prop)
         os.makedirs(rdir, exist_ok=True)
         rpath = os.path.join(rdir, sanitize(o["id"]) + ".json")
         rep = {"reproduced": None, "note": "no replay harness for this obligation"}
@@ -215,7 +262,7 @@ def main(argv=None):
         viol_lines.append((line, o))
 
     # ------------------------------------------------------------------ evidence
-    level = getattr(mod, "LEVEL", "proof")
+    level = claimed_level(mod, prop)
     bounded = []
     if hasattr(mod, "bounded_results"):
         bounded = mod.bounded_results
@@ -251,15 +298,12 @@ def main(argv=None):
         "evaluations": sum(o["instances"] for o in obligations.values()),
         "distinct_nontrivial": len([o for o in obligations.values() if o["backend"] != "evaluation" or True]),
         "rule": "one evaluation = one (obligation, path) pair put to a back end; distinct = distinct obligation ids",
-        "explanation": getattr(mod, "EXPLANATION", "") or
-                       ("contract-based deductive check; see level note in MANIFEST.json" if ev_level == "other" else ""),
+        "explanation": _explanation(mod, ev_level, n_ob, discharged, known, violations, undec_obs, undecided, missing, errors),
         "bounded_standins": bounded,
         "not_decided": list(getattr(mod, "NOT_DECIDED", [])),
     }
     if alt_note:
         coverage["alternative"] = alt_note
-    if not coverage["explanation"]:
-        coverage["explanation"] = "all obligations generated from the current source were discharged"
     evidence = {
         "property_id": prop, "tier": tier, "seed": seed, "level": ev_level, "coverage": coverage,
         "assumptions": assumptions, "wall_s": round(time.time() - t0, 2), "violations": len(viol_lines),
